@@ -1,0 +1,12 @@
+//go:build !verif
+
+// Package verifhook provides yield points and counters for the external
+// verification harness. Without the "verif" build tag every function is an
+// empty, inlinable no-op.
+package verifhook
+
+// At marks a yield point (no-op without the verif tag).
+func At(point string) {}
+
+// Count increments a named counter (no-op without the verif tag).
+func Count(name string) {}
